@@ -142,6 +142,12 @@ def real_cases(ctx):
     for k in range(ctx.budget(60, 1500)):
         tpl, jctx = gen.jinja_template(rng) if k % 2 else gen.jinja_block_template(rng)
         yield "ansi", "jinja", "jinja", tpl, jctx
+        if k % 3 == 0:
+            # one token assembled from several tags and literals, also as the very first thing in the file (source offset 0)
+            glue = rng.choice(["{{ name }}_{{ t }}", "{{ t }}{{ name }}c", "'{{ name }}'", "{{ t }}_{{ name }}_{{ n }}", "a{{ name }}b{{ t }}", "{{ name }}{{ t }}{{ n }}x",
+                                "ab{# c #}cd", "a{# c #}b{# d #}c", "col{% if flag %}_x{% endif %}y", "x{# c #}1{# d #}2 ", "sel{# c #}ect"])
+            lead = rng.choice(["", "", " ", "SELECT "])
+            yield "ansi", "jinja", "jinja-glued", lead + glue + rng.choice([" x", " AS x\n", "\n", " FROM {{ t }}_{{ name }}\n"]), jctx
     for _ in range(ctx.budget(15, 300)):
         yield "ansi", "python", "py", rng.choice(["SELECT {a}  FROM {t}", "select {a},{b} from {t} where x = {n}", "{a}{b}", "SELECT '{{x}}' , {a}"]), {"a": "col", "b": "c2", "t": "tbl", "n": 3}
     for _ in range(ctx.budget(15, 300)):
@@ -166,6 +172,19 @@ def iterseg_lines(ctx, tf, toks, lines, meta, case):
         lines.append("iterseg.split %d %d %s" % (e0, e1, enc_nats(flat)))
         meta.append(("iterseg", dict(case, element=[e0, e1], slices=[(s_.templated_slice.start, s_.templated_slice.stop, s_.source_slice.start) for s_ in over]), real, None))
         ctx.bump("split_whitespace_elements")
+    # tokens that may not be split and span several literal slices (a word around a template comment, a name glued from literals)
+    for t in toks:
+        if t.is_meta or t.is_type("whitespace") or not t.raw:
+            continue
+        e0, e1 = t.pos_marker.templated_slice.start, t.pos_marker.templated_slice.stop
+        over = [s_ for s_ in nz if s_.templated_slice.start < e1 and s_.templated_slice.stop > e0]
+        if len(over) < 2 or any(s_.slice_type != "literal" for s_ in over):
+            continue
+        flat = [x for s_ in over for x in (s_.templated_slice.start, s_.templated_slice.stop, s_.source_slice.start)]
+        lines.append("iterseg.span %d %d %s" % (e0, e1, enc_nats(flat)))
+        meta.append(("iterspan", dict(case, token=t.raw, element=[e0, e1], slices=[(s_.templated_slice.start, s_.templated_slice.stop, s_.source_slice.start) for s_ in over]),
+                     "%d,%d" % (t.pos_marker.source_slice.start, t.pos_marker.source_slice.stop), None))
+        ctx.bump("spanning_tokens")
 
 
 def real_lex(ctx):
@@ -257,6 +276,11 @@ def run(ctx, prove=True):
                 model = (out, None)
             if model != (real[0], real[1]):
                 ctx.corr_fail("PyLexer.lex loop", {"matchers": specs, "last_resort": lr, "text": s, "real": real, "model": model})
+        elif m[0] == "iterspan":
+            _, case, real, _x = m
+            ctx.count(("iterspan", json.dumps(case, sort_keys=True, default=str)), nontrivial=True)
+            if out.strip() != real:
+                ctx.corr_fail("_iter_segments spanning token source slice: model vs real", dict(case, model=out, real=real))
         elif m[0] == "iterseg":
             _, case, real, _x = m
             model = [] if out.strip() == "~" else [tuple(int(x) for x in p.split(",")) for p in out.strip().split(";")]
